@@ -160,7 +160,16 @@ func dumpSeries(css []*benchseries.ComparisonSeries) string {
 				if c.Denominator != nil {
 					den = canonBits(c.Denominator.Values)
 				}
-				pts = append(pts, hx.HexS(b)+"#"+hx.HexS(s)+"#"+hx.HexS(c.Date)+"#"+num+"#"+den)
+				// the ORDER in which the samples are delivered: both cells of a complete point are documented
+				// (and needed by the bootstrap seed) to be ascending
+				ord := "n"
+				if c.Numerator != nil && c.Denominator != nil {
+					ord = "0"
+					if sort.Float64sAreSorted(c.Numerator.Values) && sort.Float64sAreSorted(c.Denominator.Values) {
+						ord = "1"
+					}
+				}
+				pts = append(pts, hx.HexS(b)+"#"+hx.HexS(s)+"#"+hx.HexS(c.Date)+"#"+num+"#"+den+"#"+ord)
 			}
 		}
 		j := func(l []string) string {
@@ -179,6 +188,27 @@ func dumpSeries(css []*benchseries.ComparisonSeries) string {
 
 // runSeries adds rs in the given order to a fresh Builder and dumps the series.
 func runSeries(rs []res, order []int, ntable, policy int) (dump string, b *benchseries.Builder) {
+	dump, _, b = runSeriesSums(rs, order, ntable, policy)
+	return
+}
+
+// summariesOf bootstraps every complete point (confidence 0.9, 5 resamples) and renders Low:Center:High bits.
+func summariesOf(css []*benchseries.ComparisonSeries) string {
+	var out []string
+	for _, cs := range css {
+		cs.AddSummaries(0.9, 5)
+		for _, b := range cs.Benchmarks {
+			for _, s := range cs.Series {
+				if sum, ok := cs.SummaryAt(b, s); ok && sum != nil && sum.Present {
+					out = append(out, hx.HexS(cs.Unit)+"/"+hx.HexS(b)+"/"+hx.HexS(s)+"="+sumBits(sum))
+				}
+			}
+		}
+	}
+	return strings.Join(out, ",")
+}
+
+func runSeriesSums(rs []res, order []int, ntable, policy int) (dump, sums string, b *benchseries.Builder) {
 	b = newBuilder(ntable)
 	for _, i := range order {
 		b.Add(rs[i].toResult())
@@ -187,9 +217,11 @@ func runSeries(rs []res, order []int, ntable, policy int) (dump string, b *bench
 	var err error
 	quiet(func() { css, err = b.AllComparisonSeries(nil, policy) })
 	if err != nil {
-		return "!err", b
+		return "!err", "", b
 	}
-	return dumpSeries(css), b
+	dump = dumpSeries(css)
+	sums = summariesOf(css)
+	return
 }
 
 // deterministic reports, from the real tables, whether the output can depend on map iteration order.
@@ -313,7 +345,7 @@ func seriesCaseN(rs []res, ntable, policy int, r *hx.Rand, tags []string, reps i
 	for i := range ident {
 		ident[i] = i
 	}
-	first, b := runSeries(rs, ident, ntable, policy)
+	first, firstSums, b := runSeriesSums(rs, ident, ntable, policy)
 	det := first == "!err" || deterministic(b, policy)
 	if det {
 		hx.Printf("obs %d det=1 dump=%s\n", cid, first)
@@ -334,16 +366,20 @@ func seriesCaseN(rs []res, ntable, policy int, r *hx.Rand, tags []string, reps i
 			orders = append(orders, p)
 		}
 	}
-	inv := 1
+	inv, rep := 1, 1
 	for _, o := range orders {
 		for k := 0; k < reps; k++ {
-			d, _ := runSeries(rs, o, ntable, policy)
+			d, sm, _ := runSeriesSums(rs, o, ntable, policy)
 			if d != first {
 				inv = 0
 			}
+			// reproducibility across builds: the same result set gives the same Low/Center/High bits
+			if sm != firstSums {
+				rep = 0
+			}
 		}
 	}
-	hx.Printf("sobs %d inv=%d dump=%s\n", cid, inv, first)
+	hx.Printf("sobs %d inv=%d rep=%d dump=%s\n", cid, inv, rep, first)
 }
 
 // ---------------------------------------------------------------- series generators
@@ -516,6 +552,10 @@ func corpusSeries(r *hx.Rand) {
 	// shared baseline cell (see aliasShape)
 	seriesCaseN(aliasShape(r, 5, 2), 0, 1, r, []string{"corpus", "alias", "multiexp", "multiser"}, 8)
 	seriesCaseN(aliasShape(r, 5, 2), 0, 0, r, []string{"corpus", "alias", "multiexp", "multiser"}, 3)
+	// interleaving experiments of one point
+	seriesCaseN(interleaveShape(r, 3, 2, false), 2, 1, r, []string{"corpus", "interleave", "multiexp"}, 3)
+	seriesCaseN(interleaveShape(r, 3, 2, false), 2, 0, r, []string{"corpus", "interleave", "multiexp"}, 3)
+	seriesCaseN(interleaveShape(r, 4, 1, true), 0, 1, r, []string{"corpus", "interleave", "multiexp"}, 3)
 	// well-formed multi-experiment replace / combine
 	wf := []res{mk("Foo", "num", "2020-01-01T00:00:00Z", 1), mk("Foo", "den", "2020-01-01T00:00:00Z", 3), mk("Foo", "num", "20200102T000000", 2), mk("Foo", "den", "20200102T000000", 4), mk("Foo", "num", "2020-01-01T00:00:00Z", 7)}
 	for pol := 0; pol < 2; pol++ {
@@ -542,6 +582,30 @@ func aliasShape(r *hx.Rand, nden, nhash int) []res {
 		e := expsA[h%5]
 		rs = append(rs, mk("num", e, h, float64(5+h)))
 		rs = append(rs, mk("den", e, h, float64(20+10*h)+float64(r.Intn(4))))
+	}
+	return rs
+}
+
+// interleaveShape: one point (benchmark, numerator hash) measured in nexp >= 3 experiments whose values
+// interleave (experiment j holds j, j+nexp, j+2·nexp, …), numerators and baselines alike: under DUPE_COMBINE
+// the combined samples are a concatenation of runs and must still be delivered ascending.
+func interleaveShape(r *hx.Rand, nexp, per int, twoBench bool) []res {
+	var rs []res
+	benchN := 1
+	if twoBench {
+		benchN = 2
+	}
+	for bi := 0; bi < benchN; bi++ {
+		for j := 0; j < nexp; j++ {
+			for i := 0; i < per; i++ {
+				v := float64(1 + j + i*nexp)
+				mk := func(role string, x float64) res {
+					return res{table: []string{"amd64", "linux"}, bench: benches[bi], exp: expsA[j], ser: stampsA[0], role: role, nh: "n0", dh: "d0", units: []string{"ns/op"}, vals: []float64{x}}
+				}
+				rs = append(rs, mk("num", v+float64(r.Intn(2))/4))
+				rs = append(rs, mk("den", 2*v+1))
+			}
+		}
 	}
 	return rs
 }
@@ -1104,6 +1168,10 @@ func main() {
 	na := hx.N(8, 150)
 	for i := 0; i < na; i++ {
 		seriesCaseN(aliasShape(r, []int{5, 3, 6, 2}[r.Intn(4)], 2+r.Intn(2)), 0, 1, r, []string{"alias", "multiexp", "multiser", "large"}, 4)
+	}
+	ni := hx.N(8, 150)
+	for i := 0; i < ni; i++ {
+		seriesCaseN(interleaveShape(r, 3+r.Intn(3), 1+r.Intn(3), r.Bool()), []int{0, 2}[r.Intn(2)], 1, r, []string{"interleave", "multiexp", "large"}, 3)
 	}
 	bootstrapCases(r)
 	multiCases(r)
